@@ -9,6 +9,10 @@ structure DSt where
   s : Refs.SSt := {}
   cnt : Nat := 0
   named : Nat := 0      -- objects created by `r obj`; later ones are buffers handed out by detach
+  ua : St := {}         -- C++ part: buffers behind the unique_array handles
+  uas : Refs.SSt := {}
+  wl : List Nat := []   -- notifier part: inputs reported by the last wait, not yet fetched
+  rdy : List Nat := []  -- notifier part: descriptors with readable data
 
 def fmtCount (v : Nat) : String :=
   if v = MAXV then "max" else if v + 1 = MAXV then "max-1" else toString v
@@ -152,6 +156,38 @@ def step (d : DSt) (w : List String) : DSt × String :=
         let (m', ok) := m.detach h len
         finish d m' ok "0" (Refs.detach d.s h)
     | _, _ => (d, "bad-op")
+  | ["r", "reserve", hs, ls] =>
+    match idx hs 3, ls.toNat? with
+    | some h, some len =>
+      if len > 64 then (d, "bad-op") else
+      match m.hnd.getD h none with
+      | some o =>
+        if (m.obj o).kind != .rbuf then (d, "bad-op") else
+        let (m', ok) := m.reserve h len
+        finish d m' ok "0" (Refs.reserve d.s h len)
+      | none =>
+        let (m', ok) := m.reserve h len
+        finish d m' ok "0" (Refs.reserve d.s h len)
+    | _, _ => (d, "bad-op")
+  | ["r", "lo", "new"] =>
+    if m.hnd.length ≠ 3 then (d, "bad-op") else
+    let m' := { m with hnd := m.hnd ++ [none] }
+    let s' : Refs.SSt := { d.s with hnd := d.s.hnd ++ [none] }
+    finish { d with s := s' } m' true "0" [{ ok := true, st := s' }]
+  | ["r", "lo", "set", os] =>
+    match idx os m.objs.length with
+    | some o =>
+      if m.hnd.length ≠ 4 ∨ (m.obj o).kind != .hmeta then (d, "bad-op") else
+      -- the held target is replaced: retain the new one, release the old one
+      let (m', r) := m.assignMeta 3 (some o)
+      finish d m' (match r with | .ok _ => true | _ => false) (match r with | .ok _ => "0" | .err e => e.name)
+        (Refs.assign d.s 3 (some o) false)
+    | none => (d, "bad-op")
+  | ["r", "lo", "drop"] =>
+    if m.hnd.length ≠ 4 then (d, "bad-op") else
+    let m1 := m.drop 3
+    let alts := (Refs.drop d.s 3).map fun a => { a with st := { a.st with hnd := a.st.hnd.take 3 } }
+    finish d { m1 with hnd := m1.hnd.take 3 } true "0" alts
   | ["r", "drop", hs] =>
     match idx hs 3 with
     | some h => finish d (m.drop h) true "0" (Refs.drop d.s h)
@@ -209,10 +245,10 @@ def step (d : DSt) (w : List String) : DSt × String :=
         else (d, "bad-op")
     else (d, "bad-op")
   | ["r", "end"] =>
-    let m' := m.endAll
+    let m' := { m.endAll with hnd := m.endAll.hnd.take 3 }
     -- S: every handle dropped, external references of small counters given back, objects without a
     -- reference destroyed; computed with the spec operations
-    let s1 := (List.range 3).foldl (fun (acc : Refs.SSt × List Refs.SEv) h =>
+    let s1 := (List.range d.s.hnd.length).foldl (fun (acc : Refs.SSt × List Refs.SEv) h =>
         match Refs.drop acc.1 h with
         | a :: _ => (a.st, acc.2 ++ a.evs)
         | [] => acc) (d.s, [])
@@ -226,7 +262,7 @@ def step (d : DSt) (w : List String) : DSt × String :=
           match Refs.extUnref acc2.1 o with
           | a :: _ => (a.st, acc2.2 ++ a.evs)
           | [] => acc2) acc) s1
-    finish d m' true "0" [{ ok := true, st := s2.1, evs := s2.2 }]
+    finish d m' true "0" [{ ok := true, st := { s2.1 with hnd := s2.1.hnd.take 3 }, evs := s2.2 }]
   | _ => (d, "bad-op")
 
 /-! ### C++ part: `mpt::reference<T>` with objects that own a handle (slots 3.. of the handle list) -/
@@ -259,6 +295,51 @@ def finishX (d : DSt) (m' : St) (alts : List Refs.Alt) : DSt × String :=
   let s' := match alts.find? (fun a => fmtXS a == c) with | some a => a.st | none => d.s
   ({ d with m := m', s := s' },
    s!"R ok | C {c} | I ret=0 | S " ++ " || ".intercalate (alts.map fun a => s!"ok ; {fmtXS a}"))
+
+/-- unique_array handles: `d` default buffer, else the first handle sharing the buffer and the length; live elements -/
+def fmtUA (hnd : List (Option Nat)) (len : Nat → Nat) (alive : Nat → Bool) (nobj : Nat) : String :=
+  let hs := (List.range 3).map fun a =>
+    match hnd.getD a none with
+    | none => s!"a{a}=d"
+    | some b =>
+      let g := ((List.range a).find? fun j => hnd.getD j none == some b).getD a
+      s!"a{a}=g{g}:{len b}"
+  let live := ((List.range nobj).map fun b => if alive b then len b else 0).foldl (· + ·) 0
+  " ".intercalate (hs ++ [s!"live={live}"])
+
+def fmtUAM (s : St) : String := fmtUA s.hnd (fun b => (s.obj b).elems.length) (fun b => (s.obj b).alive) s.objs.length
+def fmtUAS (s : Refs.SSt) : String :=
+  fmtUA s.hnd (fun b => (s.objs.getD b default).elems.length) (fun b => !(s.objs.getD b default).dead) s.objs.length
+
+def finishUA (d : DSt) (m' : St) (ok : Bool) (alts : List Refs.Alt) : DSt × String :=
+  let c := fmtUAM m'
+  let s' := match alts.find? (fun a => a.ok == ok && fmtUAS a.st == c) with | some a => a.st | none => d.uas
+  ({ d with ua := m', uas := s' },
+   s!"R {if ok then "ok" else "refused"} | C {c} | I ret=0 | S " ++
+     " || ".intercalate (alts.map fun a => s!"{if a.ok then "ok" else "refused"} ; {fmtUAS a.st}"))
+
+def stepUA (d : DSt) (w : List String) : DSt × String :=
+  let m := d.ua.clearEv
+  match w with
+  | ["x", "ua", "copy", as_, bs] =>
+    match idx as_ 3, idx bs 3 with
+    | some a, some b => finishUA d (m.assignRef a (m.hnd.getD b none)) true (Refs.xassign 99 d.uas a (d.uas.hnd.getD b none))
+    | _, _ => (d, "bad-op")
+  | ["x", "ua", "insert", as_] =>
+    match idx as_ 3 with
+    | some a => let (m', ok) := m.uaInsert a; finishUA d m' ok (Refs.uaGrow d.uas a (· + 1))
+    | none => (d, "bad-op")
+  | ["x", "ua", "resize", as_, ns] =>
+    match idx as_ 3, ns.toNat? with
+    | some a, some n =>
+      if n > 64 then (d, "bad-op") else
+      let (m', ok) := m.uaResize a n; finishUA d m' ok (Refs.uaGrow d.uas a (fun _ => n))
+    | _, _ => (d, "bad-op")
+  | ["x", "ua", "drop", as_] =>
+    match idx as_ 3 with
+    | some a => finishUA d (m.drop a) true (Refs.drop d.uas a)
+    | none => (d, "bad-op")
+  | _ => (d, "bad-op")
 
 /-- settle the spec state after a plain spec operation -/
 def settleAlts (alts : List Refs.Alt) : List Refs.Alt := alts.map (Refs.settled 3)
@@ -440,11 +521,196 @@ def stepK (d : DSt) (w : List String) : DSt × String :=
     finishK d m2 true [{ ok := true, st := s2.1, evs := s2.2 }]
   | _ => (d, "bad-op")
 
+/-! ### stream inputs held by a notifier: the notifier's slots are the handles, an input's descriptor is kept in
+     `cap` (slot + 1, 0 = none), its failing `next()` in `elems` -/
+
+def inSlot (s : St) (i : Nat) : Option Nat := if (s.obj i).cap = 0 then none else some ((s.obj i).cap - 1)
+def setInSlot (s : St) (i : Nat) (sl : Option Nat) : St :=
+  { s with objs := s.objs.set i { (s.obj i) with cap := match sl with | some k => k + 1 | none => 0 } }
+
+def fmtNObjs (objs : List (Bool × Nat × Nat × Nat × Bool × Bool)) (hnd : List (Option Nat)) : String :=
+  let os := (List.range objs.length).map fun i =>
+    match objs.getD i (false, 0, 0, 0, false, false) with
+    | (alive, count, add, unref, destroyed, dead) => fmtObj i .hmeta alive count add unref destroyed dead
+  let hs := (List.range 3).map fun h => match hnd.getD h none with | some o => s!"h{h}={o}" | none => s!"h{h}=-"
+  " ".intercalate (os ++ hs)
+
+def fmtNM (s : St) : String :=
+  fmtNObjs ((List.range s.objs.length).map fun i =>
+    let o := s.obj i; let e := s.evOf i
+    (o.alive, o.count, e.add, e.unref, e.destroyed, e.dead)) s.hnd
+
+def fmtNS (a : Refs.Alt) : String :=
+  let s := a.st
+  fmtNObjs ((List.range s.objs.length).map fun i =>
+    let o := s.objs.getD i default
+    let evs := a.evs.filter (·.obj == i)
+    (!o.dead, Refs.refs s i, (evs.map (·.add)).foldl (· + ·) 0, (evs.map (·.unref)).foldl (· + ·) 0,
+     evs.any (·.destroyed), evs.any (·.dead))) s.hnd
+
+/-- alternatives carry the R text they belong to -/
+def finishN (d : DSt) (m' : St) (r : String) (alts : List (String × Refs.Alt)) (wl : List Nat) (rdy : List Nat) : DSt × String :=
+  let c := fmtNM m'
+  let s' := match alts.find? (fun a => a.1 == r && fmtNS a.2 == c) with | some a => a.2.st | none => d.s
+  ({ d with m := m', s := s', wl := wl, rdy := rdy },
+   s!"R {r} | C {c} | I - | S " ++ " || ".intercalate (alts.map fun a => s!"{a.1} ; {fmtNS a.2}"))
+
+def tag (r : String) (l : List Refs.Alt) : List (String × Refs.Alt) := l.map fun a => (r, a)
+
+/-- a reference taken and given back at once (the caller's, when the notifier does not accept the input) -/
+def bounced (s : Refs.SSt) (i : Nat) : List Refs.Alt :=
+  [{ ok := false, st := s, evs := [{ obj := i, add := 1, unref := 1 }] }] ++ Refs.refusedAlts s i
+
+def parseSlot (w : String) : Option (Option Nat) :=
+  if w == "none" then some none else (idx w 3).map some
+
+def stepN (d : DSt) (w : List String) : DSt × String :=
+  let m := d.m.clearEv
+  match w with
+  | ["n", "begin"] => ({}, "R ok | C - | I -")
+  | ["n", "input", v, sl] =>
+    match parseCount v, parseSlot sl with
+    | some n, some slot =>
+      if m.objs.length ≥ 3 then (d, "bad-op") else
+      let m' : St := { m with objs := m.objs ++ [{ kind := .hmeta, count := n, alive := true, ext := n,
+                                                   cap := match slot with | some k => k + 1 | none => 0 }], ev := m.ev ++ [{}] }
+      let s' : Refs.SSt := { d.s with objs := d.s.objs ++ [{ kind := .hmeta, ext := n }] }
+      finishN { d with s := s' } m' "ok" [("ok", { ok := true, st := s' })] d.wl d.rdy
+    | _, _ => (d, "bad-op")
+  | ["n", opn, is_] =>
+    if opn != "add" ∧ opn != "config" then
+      (match w with
+       | ["n", "clear", sl] =>
+         match idx sl 3 with
+         | some k =>
+           match m.hnd.getD k none with
+           | none => finishN d m "ok" [("ok", { ok := true, st := d.s })] d.wl d.rdy
+           | some i => finishN d (m.drop k) "ok" (tag "ok" (Refs.drop d.s k)) (d.wl.filter (· != i)) d.rdy
+         | none => (d, "bad-op")
+       | ["n", "ready", sl] =>
+         match idx sl 3 with
+         | some k => finishN d m "ok" [("ok", { ok := true, st := d.s })] d.wl (if d.rdy.contains k then d.rdy else d.rdy ++ [k])
+         | none => (d, "bad-op")
+       | _ => (d, "bad-op"))
+    else
+    -- `config`: the configured input is retained and handed to the notifier like `add`
+    match idx is_ m.objs.length with
+    | some i =>
+      let sAlts : List (String × Refs.Alt) :=
+        (match inSlot m i with
+         | some sl => if (d.s.hnd.getD sl none).isNone then tag "ok" ((Refs.take d.s sl i).filter (·.ok)) else []
+         | none => []) ++ tag "refused" (bounced d.s i)
+      let (m1, r) := m.addref i
+      if r = 0 then finishN d m1 "refused" sAlts d.wl d.rdy
+      else match inSlot m i with
+        | none => finishN d (m1.unref i) "refused" sAlts d.wl d.rdy
+        | some sl =>
+          if (m1.hnd.getD sl none).isSome then finishN d (m1.unref i) "refused" sAlts d.wl d.rdy
+          else finishN d { m1 with hnd := m1.hnd.set sl (some i) } "ok" sAlts d.wl d.rdy
+    | none => (d, "bad-op")
+  | ["n", "change", is_, sl] =>
+    match idx is_ m.objs.length, parseSlot sl with
+    | some i, some new =>
+      if !(m.obj i).alive then (d, "bad-op") else
+      let old := inSlot m i
+      let registered : Bool := match old with | some k => m.hnd.getD k none == some i | none => false
+      let m0 := setInSlot m i new
+      -- S: the notifier's reference to the input is unchanged, moved/added to the new descriptor, or given up;
+      -- no other input is touched
+      let sOld : Refs.SSt := d.s
+      let sWithout : Refs.SSt := match old with
+        | some k => if registered then Refs.setHnd sOld k none else sOld
+        | none => sOld
+      let relAlts : List (String × Refs.Alt) :=
+        if registered then
+          let (s', dd) := Refs.released sWithout i
+          [("refused", { ok := false, st := s', evs := [{ obj := i, unref := 1, destroyed := dd }] }),
+           ("refused", { ok := false, st := s', evs := [{ obj := i, add := 1, unref := 2, destroyed := dd }] })]
+        else []
+      let movAlts : List (String × Refs.Alt) :=
+        match new with
+        | some k =>
+          if (sWithout.hnd.getD k none).isNone ∧ (registered ∨ Refs.canTake sOld i) then
+            [("ok", { ok := true, st := Refs.setHnd sWithout k (some i), evs := if registered then [] else [{ obj := i, add := 1 }] })] ++
+            (if registered ∧ Refs.canTake sOld i then
+              [("ok", { ok := true, st := Refs.setHnd sWithout k (some i), evs := [{ obj := i, add := 1, unref := 1 }] })] else [])
+          else []
+        | none => []
+      let sAlts := [("ok", { ok := true, st := sOld }), ("refused", { ok := false, st := sOld })] ++
+                   tag "refused" (bounced sOld i) ++ relAlts ++ movAlts
+      if !registered then
+        match new with
+        | none => finishN d m0 "ok" sAlts d.wl d.rdy
+        | some k =>
+          let (m1, r) := m0.addref i
+          if r = 0 then finishN d m1 "refused" sAlts d.wl d.rdy
+          else if (m1.hnd.getD k none).isSome then finishN d (m1.unref i) "refused" sAlts d.wl d.rdy
+          else finishN d { m1 with hnd := m1.hnd.set k (some i) } "ok" sAlts d.wl d.rdy
+      else if new == old then finishN d m0 "ok" sAlts d.wl d.rdy
+      else
+        let k0 := old.getD 0
+        -- a reference for the new position, then the old registration is cleared (also from the wait list)
+        let (m1, r) := m0.addref i
+        if r = 0 then finishN d m1 "refused" sAlts d.wl d.rdy else
+        let m2 := m1.drop k0
+        let wl' := d.wl.filter (· != i)
+        match new with
+        | none => finishN d (m2.unref i) "refused" sAlts wl' d.rdy
+        | some k =>
+          if (m2.hnd.getD k none).isSome then finishN d (m2.unref i) "refused" sAlts wl' d.rdy
+          else finishN d { m2 with hnd := m2.hnd.set k (some i) } "ok" sAlts wl' d.rdy
+    | _, _ => (d, "bad-op")
+  | ["n", "nextfail", is_, v] =>
+    match idx is_ m.objs.length, idx v 2 with
+    | some i, some b =>
+      finishN d { m with objs := m.objs.set i { (m.obj i) with elems := if b = 1 then [1] else [] } } "ok" [("ok", { ok := true, st := d.s })] d.wl d.rdy
+    | _, _ => (d, "bad-op")
+  | ["n", "wait"] =>
+    -- occupants of readable descriptors are reported; an input whose next() fails is dropped by the notifier
+    let step1 := fun (acc : St × Refs.SSt × List Refs.SEv × List Nat) (k : Nat) =>
+      match acc.1.hnd.getD k none with
+      | none => acc
+      | some i =>
+        if !(acc.1.obj i).elems.isEmpty then
+          let sa := match Refs.drop acc.2.1 k with | a :: _ => (a.st, acc.2.2.1 ++ a.evs) | [] => (acc.2.1, acc.2.2.1)
+          (acc.1.drop k, sa.1, sa.2, acc.2.2.2)
+        else (acc.1, acc.2.1, acc.2.2.1, acc.2.2.2 ++ [i])
+    let anyUsed := (List.range 3).any fun k => (m.hnd.getD k none).isSome
+    if !anyUsed then finishN d m "ok" [("ok", { ok := true, st := d.s })] d.wl d.rdy else
+    let r := d.rdy.foldl step1 (m, d.s, [], [])
+    finishN d r.1 "ok" [("ok", { ok := true, st := r.2.1, evs := r.2.2.1 })] r.2.2.2 d.rdy
+  | ["n", "next"] =>
+    -- S: nothing, or an input the notifier still refers to
+    let held := (List.range 3).filterMap fun k => d.s.hnd.getD k none
+    let sAlts := ("ok in=-", ({ ok := true, st := d.s } : Refs.Alt)) :: held.map fun i => (s!"ok in={i}", ({ ok := true, st := d.s } : Refs.Alt))
+    match d.wl with
+    | [] => finishN d m "ok in=-" sAlts [] d.rdy
+    | i :: rest => finishN d m s!"ok in={i}" sAlts rest d.rdy
+  | ["n", "fini"] =>
+    let m1 := (List.range 3).foldl (fun st k => st.drop k) m
+    let s1 := (List.range 3).foldl (fun (acc : Refs.SSt × List Refs.SEv) k =>
+      match Refs.drop acc.1 k with | a :: _ => (a.st, acc.2 ++ a.evs) | [] => acc) (d.s, [])
+    finishN d m1 "ok" [("ok", { ok := true, st := s1.1, evs := s1.2 })] [] d.rdy
+  | ["n", "end"] =>
+    let m1 := m.endAll
+    let s1 := (List.range 3).foldl (fun (acc : Refs.SSt × List Refs.SEv) k =>
+      match Refs.drop acc.1 k with | a :: _ => (a.st, acc.2 ++ a.evs) | [] => acc) (d.s, [])
+    let s2 := (List.range d.s.objs.length).foldl (fun (acc : Refs.SSt × List Refs.SEv) o =>
+      let ob := acc.1.objs.getD o default
+      let n := if !ob.dead ∧ ob.ext < 16 then ob.ext else 0
+      (List.range n).foldl (fun (acc2 : Refs.SSt × List Refs.SEv) _ =>
+        if (acc2.1.objs.getD o default).dead then acc2 else
+        match Refs.extUnref acc2.1 o with | a :: _ => (a.st, acc2.2 ++ a.evs) | [] => acc2) acc) s1
+    finishN d m1 "ok" [("ok", { ok := true, st := s2.1, evs := s2.2 })] [] d.rdy
+  | _ => (d, "bad-op")
+
 /-- dispatch on the driver part -/
 def stepAll (d : DSt) (w : List String) : DSt × String :=
   match w with
+  | "x" :: "ua" :: _ => stepUA d w
   | "x" :: _ => stepX d w
   | "k" :: _ => stepK d w
+  | "n" :: _ => stepN d w
   | _ => step d w
 
 def main (_args : List String) : IO Unit := do
